@@ -10,4 +10,4 @@ Extraction "model.ml"
   N.add N.mul N.div N.modulo N.of_nat N.to_nat Z.add Z.mul Z.opp Z.of_N Z.to_N
   sha256 model_signing_root spec_signing_root reconstruct_baked tasks_to_messages
   dec_of_Z parse_int64
-  fsm_case from_dump inst_do obs_of_do dump_of create round_step do_on_dump.
+  fsm_case from_dump inst_do obs_of_do dump_of create round_step do_on_dump mem_case.
